@@ -109,6 +109,10 @@ CHECKS = {
  "C33": ("exploration", "compaction driver + model oracle on every read path (Get, iterators, Stream, Backup+Load), GC family, one guarded wall-clock case",
          "Driver histories with ~45% expiring writes (stamps >= 10^6 s from the clock) mixed with deletes/overwrites over all placements and compaction kinds, normal and managed; Get/iterators checked after every step, Stream and Backup+Load at mid-run points and at the end; GC over expired value-log entries; TTL 2 s case judged only >= 1 s away from the boundary.",
          "Clock-independent except the guarded case; GC family uses write-once keys (known GC finding).", "4/C33"),
+
+ "C23": ("exploration", "twin run encrypted vs plain + on-disk plaintext scan (needles) + IV-uniqueness monitor on a hook + wrong-key opens with tree hash + rotate command",
+         "Pre-drawn scripts on AES-128/192/256 databases with data-key rotation 1 ms..10 days vs the same script on a plain database (identical reads, equal to the model); 12-byte needles of every value/long key searched in every file at mid-run copies, after close and after re-open; hook-logged (data key id, IV) pairs never repeat; different key / no key / key on plain DB refused with ErrEncryptionKeyMismatch without changing files; old data keys readable after re-open; master-key rotation through the built badger rotate command.",
+         "Needle collisions negligible; compression off; crash-time scans belong to the crash engine.", "4/C23"),
 }
 
 def hooks_commits():
